@@ -1197,3 +1197,52 @@ def _ask_sign(self, d: Lin):
 
 
 Executor.ask_sign = _ask_sign
+
+
+def entails(valuation: dict, op, a: Lin, b: Lin, box=4, integer=True):
+    """
+    Does the (partial) sign valuation force  a <op> b ?  Returns True (forced), False (a
+    counter-model in a small integer box exists: the claim does not follow) or None (cannot
+    be judged: more atoms than the search bound).  Used by rules to ask whether a fact the
+    property needs was established on a path, without requiring that the code tested it in
+    exactly that syntactic form.
+    """
+    d = a - b
+    if d.is_const():
+        v = d.const
+        return {ast.Lt: v < 0, ast.LtE: v <= 0, ast.Gt: v > 0, ast.GtE: v >= 0, ast.Eq: v == 0, ast.NotEq: v != 0}[type(op)]
+    cons = []
+    for k, sgn in valuation.items():
+        if k.startswith("sign:"):
+            l = _LIN_REGISTRY.get(k)
+            if l is not None:
+                cons.append((l, sgn))
+    atoms = sorted({x for l, _ in cons for x in l.terms} | set(d.terms))
+    if len(atoms) > 6:
+        return None
+    from math import lcm
+
+    def ints(l):
+        den = 1
+        for c in list(l.terms.values()) + [l.const]:
+            den = lcm(den, c.denominator)
+        return {x: int(c * den) for x, c in l.terms.items()}, int(l.const * den)
+
+    icons = [(ints(l), sgn) for l, sgn in cons]
+    dt, dc = ints(d)
+    neg = {ast.Lt: lambda v: v >= 0, ast.LtE: lambda v: v > 0, ast.Gt: lambda v: v <= 0, ast.GtE: lambda v: v < 0, ast.Eq: lambda v: v != 0, ast.NotEq: lambda v: v == 0}[type(op)]
+    rng = range(-box, box + 1)
+    for combo in itertools.product(rng, repeat=len(atoms)):
+        m = dict(zip(atoms, combo))
+        ok = True
+        for (terms, const), sgn in icons:
+            v = const + sum(c * m[x] for x, c in terms.items())
+            if ((v > 0) - (v < 0)) != sgn:
+                ok = False
+                break
+        if not ok:
+            continue
+        v = dc + sum(c * m[x] for x, c in dt.items())
+        if neg(v):
+            return False
+    return True
